@@ -201,6 +201,28 @@ func c01Gen(r *rand.Rand, tier string) any {
 				e := eds[r.IntN(len(eds))]
 				sc.Ops = append(sc.Ops, opSpec{Op: "build", Label: label}, e[0], opSpec{Op: "build", Label: label, CrashAt: 1 + r.IntN(700)}, e[1], opSpec{Op: "build", Label: label})
 			}
+		case k < 18 && r.IntN(2) == 0:
+			// a flaky step on a loaded project (the REPL's run() twice, an embedder): a target
+			// runs because its output is missing - or because the run is forced -, its body
+			// fails after (half) writing the output, and the same loaded project runs again
+			label := pickLabel(r, shadow)
+			var cands []string
+			for _, t := range shadow.closure(label) {
+				if len(t.Generates) > 0 && !t.Always {
+					cands = append(cands, t.label())
+				}
+			}
+			if len(cands) > 0 {
+				tl := cands[r.IntN(len(cands))]
+				sc.Ops = append(sc.Ops, opSpec{Op: "build", Label: label})
+				op := opSpec{Op: "build", Label: label, Twice: true, Fail: []string{tl}, FailLate: true, Between: &opSpec{Op: "nop"}}
+				if r.IntN(2) == 0 {
+					sc.Ops = append(sc.Ops, opSpec{Op: "delete-generated", Label: tl, N: 0})
+				} else {
+					op.Always, op.SecondPlain = true, true
+				}
+				sc.Ops = append(sc.Ops, op)
+			}
 		case k < 18:
 			sc.Ops = append(sc.Ops, opSpec{Op: "gc"})
 		case k < 19:
@@ -298,6 +320,12 @@ func c01Exec(scAny any, c *simcheck.Ctx) *simcheck.Violation {
 			return v
 		}
 		lastGood = op.Label
+		if op.Twice && op.FailLate && len(op.Fail) > 0 {
+			// the first run of this process failed after writing half of an output
+			if v := h.compareFromScratch(op.Label, fmt.Sprintf("flaky%d", i)); v != nil {
+				return v
+			}
+		}
 		if c.Tier == "thorough" && i%3 == 0 {
 			if v := h.compareFromScratch(op.Label, "mid"); v != nil {
 				return v
@@ -432,6 +460,18 @@ func c02Gen(r *rand.Rand, tier string) any {
 		if r.IntN(5) == 0 {
 			sc.Ops = append(sc.Ops, opSpec{Op: "load-only", Index: r.IntN(2) == 0})
 		}
+		if r.IntN(6) == 0 {
+			// a forced build (dawn build -B) of the label, or of something inside its closure:
+			// everything runs again, nothing has changed, and nothing may run after it
+			l := label
+			if cl := shadow.closure(label); len(cl) > 0 && r.IntN(2) == 0 {
+				l = cl[r.IntN(len(cl))].label()
+			}
+			sc.Ops = append(sc.Ops, opSpec{Op: "build", Label: l, Always: true})
+			if l != label {
+				sc.Ops = append(sc.Ops, opSpec{Op: "build", Label: label})
+			}
+		}
 		if r.IntN(5) == 0 {
 			// a source of the closure is unreadable during one build (which fails), then back,
 			// byte for byte: nothing has changed since the last successful executions
@@ -491,7 +531,7 @@ func c02Exec(scAny any, c *simcheck.Ctx) *simcheck.Violation {
 			if currentLabel != "" {
 				// only the edit classes the property lists keep the premise
 				switch op.Op {
-				case "touch", "rewrite-same", "comment", "blank", "doc", "edit-source":
+				case "touch", "rewrite-same", "comment", "blank", "doc", "edit-source", "wipe-module-cache":
 				case "break-source":
 					brokenNow[op.Path] = true
 				case "restore-source":
